@@ -105,7 +105,8 @@ class GcodeHandlers(object):
 
         # Compute the number of segments to produce based on the length of the arc
         arcLength = abs(angularTravel) * radius
-        numSegments = int(math.ceil(arcLength / MM_PER_ARC_SEGMENT))
+        # A degenerate arc (zero angular travel to a different end point) still needs one segment
+        numSegments = max(1, int(math.ceil(arcLength / MM_PER_ARC_SEGMENT)))
 
         angle = math.atan2(-j, -i)
         angularIncrement = angularTravel / numSegments
